@@ -134,8 +134,19 @@ func childStress(config, dir string, seed uint64, ms int) {
 	case "limited":
 		maxSize = []int64{1, 3000, 9000}[rng.Intn(3)]
 	}
+	// "two": the way a node runs its shards - ONE size-limited manager (limit far above what the
+	// run needs: nothing is ever evicted, but every reuse of a shared cache makes checkAndPrune
+	// compute the size of EVERY cache of the manager) shared by this shard and a second, small,
+	// warm one that is only searched. A searcher of the small shard and a writer of this one share
+	// no cache at all: the schedule is clean, whatever happens to either is a failure.
+	two := warm == "two"
+	if two {
+		maxSize = 256 << 20
+	}
+	var mgr *cache.Manager
 	open := func(sz int64) *shard.Shard {
-		sh, err := shard.NewShard(path, col, cache.NewManager(sz))
+		mgr = cache.NewManager(sz)
+		sh, err := shard.NewShard(path, col, mgr)
 		if err != nil {
 			panic(err)
 		}
@@ -222,8 +233,36 @@ func childStress(config, dir string, seed uint64, ms int) {
 		}
 		return q
 	}
+	var small *shard.Shard
+	smallState := RefState{}
+	var smallDocs []Doc
+	if two {
+		var err error
+		small, err = shard.NewShard(filepath.Join(dir, "small.bbolt"), col, mgr)
+		if err != nil {
+			panic(err)
+		}
+		var pts []models.Point
+		sd := refDocs{}
+		for i := 0; i < 24+rng.Intn(40); i++ {
+			id, d := newDoc(rng.Intn(50))
+			sd[id] = d
+			smallDocs = append(smallDocs, d)
+			pts = append(pts, models.Point{Id: id, Data: encodeDoc(d)})
+		}
+		if err := small.InsertPoints(pts); err != nil {
+			panic(err)
+		}
+		smallState = canonState(sd)
+		// warm both of its vector caches completely: its searches below never read from storage
+		for _, d := range smallDocs {
+			v := d[propVec].([]float32)
+			doSearch(small, QSpec{Kind: "vamana", X: v[0], Y: v[1], K: 8})
+			doSearch(small, QSpec{Kind: "flat", X: v[0], Y: v[1], K: 3})
+		}
+	}
 	switch warm {
-	case "warm":
+	case "warm", "two":
 		for i := 0; i < 40; i++ {
 			doSearch(sh, mkQuery(rng))
 		}
@@ -282,9 +321,12 @@ func childStress(config, dir string, seed uint64, ms int) {
 				c := r.Intn(100)
 				var err error
 				switch {
-				case c < 45 || len(live) < 10:
+				case c < 45 || len(live) < 10 || (two && c < 85):
 					b.Kind = "insert"
 					k := 1 + r.Intn(12)
+					if two {
+						k = 40 + r.Intn(160) // bulk load: the insert workers spend their time writing into the caches
+					}
 					var pts []models.Point
 					for i := 0; i < k; i++ {
 						id := mkUUID(r)
@@ -416,9 +458,46 @@ func childStress(config, dir string, seed uint64, ms int) {
 			}
 		}(s, sr)
 	}
+	// searchers of the small shard ("two"): static state, warm caches
+	var smallSearches, smallHits atomic.Int64
+	if two {
+		for s := 0; s < 3+rng.Intn(3); s++ {
+			swg.Add(1)
+			sr := vh.NewRng(rng.U64())
+			go func(r *vh.Rng) {
+				defer swg.Done()
+				for n := 0; !writersDone.Load() || n < 5; n++ {
+					v := smallDocs[r.Intn(len(smallDocs))][propVec].([]float32)
+					q := QSpec{Kind: "vamana", X: v[0], Y: v[1], K: 1 + r.Intn(4)}
+					if r.Chance(30) {
+						q.Kind = "flat"
+					}
+					so := doSearchSafe(small, q)
+					smallSearches.Add(1)
+					env.progress.Add(1)
+					rp := fmt.Sprintf("stress %s seed=%d ms=%d small-shard query=%s", config, seed, ms, q)
+					if so.Err != "" {
+						env.fail("search-error:"+normErr(so.Err), "search of the small shard (never written during the run) failed: "+so.Err, rp)
+						continue
+					}
+					if len(so.Hits) == 0 {
+						env.fail("not-committed-live", "search of the small shard at the position of one of its points returned nothing", rp)
+					}
+					for _, h := range so.Hits {
+						smallHits.Add(1)
+						if smallState[h.Id] != h.Doc {
+							env.fail("not-committed-live", fmt.Sprintf("small shard (never written during the run): returned point %s with document %s; its state has %q", h.Id, h.Doc, smallState[h.Id]), rp)
+						}
+					}
+				}
+			}(sr)
+		}
+	}
 	wg.Wait()
 	writersDone.Store(true)
 	swg.Wait()
+	env.res.Searches += smallSearches.Load()
+	env.res.Hits += smallHits.Load()
 
 	// ---------------------------------------------------------------- timeline of committed states
 	var committed []*Batch
@@ -501,55 +580,7 @@ func childStress(config, dir string, seed uint64, ms int) {
 	}
 
 	// ---------------------------------------------------------------- quiescent: final state
-	got := RefState{}
-	count := uint64(0)
-	err := sh.VerifDB().Read(func(bm diskstore.BucketManager) error {
-		b, err := bm.Get(pointstore.POINTSBUCKETNAME)
-		if err != nil {
-			return err
-		}
-		type rec struct {
-			id   uuid.UUID
-			data []byte
-			has  bool
-		}
-		nodes := map[uint64]*rec{}
-		err = b.ForEach(func(k, v []byte) error {
-			if nid, ok := conversion.NodeIdFromKey(k, 'i'); ok {
-				r := nodes[nid]
-				if r == nil {
-					r = &rec{}
-					nodes[nid] = r
-				}
-				copy(r.id[:], v)
-				r.has = true
-			} else if nid, ok := conversion.NodeIdFromKey(k, 'd'); ok {
-				r := nodes[nid]
-				if r == nil {
-					r = &rec{}
-					nodes[nid] = r
-				}
-				r.data = append([]byte{}, v...)
-			}
-			return nil
-		})
-		for _, r := range nodes {
-			if r.has {
-				s, e := canonBytes(r.data)
-				if e != nil {
-					s = "!" + e.Error()
-				}
-				got[r.id] = s
-			}
-		}
-		bi, err2 := bm.Get(shard.INTERNALBUCKETNAME)
-		if err2 == nil {
-			if cb := bi.Get(shard.POINTCOUNTKEY); cb != nil {
-				count = conversion.BytesToUint64(cb)
-			}
-		}
-		return err
-	})
+	got, count, err := dumpPoints(sh.VerifDB())
 	if err != nil {
 		env.fail("final-dump-failed", err.Error(), rp)
 	}
@@ -613,6 +644,61 @@ func childStress(config, dir string, seed uint64, ms int) {
 	}
 	coldSh.Close()
 	finish()
+}
+
+// dumpPoints reads the points bucket (uuid -> canonical document of every node that has an id
+// record) and the point counter of a live shard.
+func dumpPoints(db diskstore.DiskStore) (RefState, uint64, error) {
+	got := RefState{}
+	count := uint64(0)
+	err := db.Read(func(bm diskstore.BucketManager) error {
+		b, err := bm.Get(pointstore.POINTSBUCKETNAME)
+		if err != nil {
+			return err
+		}
+		type rec struct {
+			id   uuid.UUID
+			data []byte
+			has  bool
+		}
+		nodes := map[uint64]*rec{}
+		err = b.ForEach(func(k, v []byte) error {
+			if nid, ok := conversion.NodeIdFromKey(k, 'i'); ok {
+				r := nodes[nid]
+				if r == nil {
+					r = &rec{}
+					nodes[nid] = r
+				}
+				copy(r.id[:], v)
+				r.has = true
+			} else if nid, ok := conversion.NodeIdFromKey(k, 'd'); ok {
+				r := nodes[nid]
+				if r == nil {
+					r = &rec{}
+					nodes[nid] = r
+				}
+				r.data = append([]byte{}, v...)
+			}
+			return nil
+		})
+		for _, r := range nodes {
+			if r.has {
+				s, e := canonBytes(r.data)
+				if e != nil {
+					s = "!" + e.Error()
+				}
+				got[r.id] = s
+			}
+		}
+		bi, err2 := bm.Get(shard.INTERNALBUCKETNAME)
+		if err2 == nil {
+			if cb := bi.Get(shard.POINTCOUNTKEY); cb != nil {
+				count = conversion.BytesToUint64(cb)
+			}
+		}
+		return err
+	})
+	return got, count, err
 }
 
 func doSearchSafe(sh *shard.Shard, q QSpec) (so searchOut) {
